@@ -14,7 +14,9 @@ What is decided, and how
       format that accepts it; generation 2 must equal generation 1 bit for bit and file 3 must equal file 2.
 The margin lemma (a unit factor between parsing and printing) is machine-checked on every run for each (precision, column
 bound) a writer uses: pyvc/rounding.py, z3 over exact rationals, under the standard model fl(x) = x(1+d), |d| <= 2^-53.
-The bare lemma (no arithmetic in between) remains a hand argument that is sampled on every run (an assumption).
+Values printed as stored: fixed point by lemma.round.bare-fixed (z3: print half-even -> nearest double -> print half-even
+is the identity on the text), scientific with <= 15 significant digits by the mantissa lemma with |D| <= u; 16 significant
+digits are refuted (not idempotent next to powers of ten); >= 17 digits identify the double (classical, trusted).
 """
 
 from __future__ import annotations
@@ -75,7 +77,7 @@ _lemma_done = {}
 
 def lemma_status(led, inst):
     """Prove (once per run) the instance of the rounding lemma that a field's margin refers to; returns its status."""
-    if not _lemma_done:
+    if "accumulate" not in _lemma_done:
         rounding.prove_accumulate(led)
         _lemma_done["accumulate"] = led.obligations["pyvc.rounding::lemma.round.accumulate"].status
     if inst not in _lemma_done:
@@ -117,6 +119,17 @@ def static_obligations(chk):
                 lemma = lemma_status(led, inst) if exact else None
                 status = "refuted" if not exact else ("discharged" if lemma == "discharged" else "unknown")
                 led.record(f"stable@{name}", "post", status, "exact-rational + z3 lemma", 0.0, detail=f"{why}; lemma instance {inst}: {lemma}; origin of the value: {origin}", witness={"record": rec.text(), "line": f.line, "origin": origin})
+            elif bare and ok and fmtspec.bare_instance(f) in (("bare-f",),) + tuple(("e", d) for d in range(15)):
+                # printed as stored: the verdict rests on the bare lemma (fixed point) or on the mantissa lemma with |D| <= u
+                binst = fmtspec.bare_instance(f)
+                if binst == ("bare-f",):
+                    if "bare-f" not in _lemma_done:
+                        rounding.prove_bare_fixed(led)
+                        _lemma_done["bare-f"] = led.obligations["pyvc.rounding::lemma.round.bare-fixed"].status
+                    lemma = _lemma_done["bare-f"]
+                else:
+                    lemma = lemma_status(led, binst)
+                led.record(f"stable@{name}", "post", "discharged" if lemma == "discharged" else "unknown", "z3 lemma", 0.0, detail=f"{why}; lemma instance {binst}: {lemma}; origin of the value: {origin}", witness={"record": rec.text(), "line": f.line, "origin": origin})
             else:
                 led.record(f"stable@{name}", "post", "discharged" if ok else "refuted", "arith", 0.0, detail=f"{why}; origin of the value: {origin}", witness={"record": rec.text(), "line": f.line, "origin": origin})
             # Z5: factors are units with the inverse operation in the reader
@@ -166,7 +179,7 @@ def run(chk):
     chk.trusted += [
         "CPython float() and format() are correctly rounded (IEEE 754 binary64, round-half-even)",
         "floating-point model of pyvc/rounding.py: float(text), one multiplication and one division each return x(1+d), |d| <= 2^-53 (no overflow/underflow), and format() returns a nearest decimal of the requested precision; under this model the margin lemma is machine-checked (lemma.round.* obligations, z3, exact rationals) and additionally sampled against CPython on every run",
-        "bare print/parse/print idempotence (no arithmetic between parsing and printing): hand argument in fmtspec.stability_condition, sampled on every run, not machine-checked",
+        "values printed as stored: float() returns a double at least as near to the text as any other double and format() rounds half-even (fixed point: lemma.round.bare-fixed, z3; scientific with <= 15 significant digits: lemma.round.sci[p]); 17 or more significant digits identify a double (classical result, not machine-checked); all of it additionally sampled against CPython on every run",
         "readers apply no arithmetic other than the unit factors found by fmtspec.reader_unit_ops to the parsed numbers (Molden/Molekel vendor fixes, WFN/WFX normalisation scales and json are covered by the bounded cycles only)",
         "convert_conventions returns signs in {+1,-1} (proved in C10), so multiplying by them is exact",
     ]
@@ -183,4 +196,4 @@ def run(chk):
     lemma_sampling(chk)
     rt_common.run_probe(chk, "c15")
     chk.samples = [o.as_dict() for o in list(chk.ledger.obligations.values())[:6]]
-    chk.notes["explanation"] = "C15: per-field stability inequalities generated from the writers' format specs (deductive: margin lemma instances discharged by z3 under the standard floating-point error model; the bare print/parse/print lemma is sampled only), unit-factor inverses, and three-generation cycles on generated objects and the converted corpus (bounded)"
+    chk.notes["explanation"] = "C15: per-field stability inequalities generated from the writers' format specs (deductive: margin lemma instances discharged by z3 under the standard floating-point error model; values printed with 17+ digits rest on the classical shortest-round-trip result), unit-factor inverses, and three-generation cycles on generated objects and the converted corpus (bounded)"
